@@ -1,5 +1,5 @@
 SPECIFICATION Spec
-CONSTANTS Conns = {"c1", "c2"} MaxOut = 1 MatchByPort = TRUE
+CONSTANTS Conns = {"c1", "c2"} MaxOut = 1 MatchByPort = TRUE Timeouts = 0 OneShotBuffered = TRUE
 INVARIANTS FlushSound
 CONSTRAINT WireSmall
 CHECK_DEADLOCK FALSE
